@@ -54,7 +54,16 @@ def check(c):
                 c.idx.stmt_of(x), c.idx.stmt_of(sp)) for x in fl)
             c.ob('C20.abs-output', c.key(n, so) + ' flushed before the child '
                  'is spawned', ok, c.where(n, so), '')
-    suic = [n for n in c.find(so, 'self.remove(c_task, _)')]
+    # (the loop variable of the suicide loop may have any name)
+    suic = [n for n in c.find(so, 'self.remove(_t, _)')
+            if any(isinstance(p, ast.For) and norm(p.iter) == 'suicide'
+                   for p in [c.idx.parent.get(id(x)) for x in [
+                       c.idx.stmt_of(n)] + [
+                       c.idx.parent.get(id(c.idx.stmt_of(n)))]]
+                   if p is not None) or c.holds(n, 'suicide')
+            or 'suicide' in norm(n)]
+    if not suic:
+        suic = [n for n in c.find(so, 'self.remove(_t, _)')]
     c.floor('C20.suicide', 'suicide removal', len(suic), 1)
     fl = [x for x in c.find(so, 'self.workflow_db_mgr.process_queued_ops()')
           if c.holds(x, 'suicide')]
@@ -80,7 +89,9 @@ def check(c):
                   pat_.split('.')[-1])
     c.floor('C20.forced-outputs', 'return True', len(rets_true), 1)
     for n in c.find(soi, 'self.workflow_db_mgr.process_queued_ops()'):
-        c.guard_only('C20.forced-outputs', n, ['!no_op'], soi)
+        # only the "something was set" flag (whatever it is called) may
+        # stand between the forced outputs and the flush
+        c.guard_only('C20.forced-outputs', n, [], soi, flags_ok=True)
 
     # ---- job submission
     sl = c.func('task_job_mgr', 'TaskJobManager.submit_livelike_task_jobs')
